@@ -140,7 +140,7 @@ class Spec(PropSpec):
     ]
 
     def gen_cases(self, ctx):
-        n = 220 if ctx.tier == "quick" else 2500
+        n = 400 if ctx.tier == "quick" else 3000
         if ctx.escalate:
             n *= 2
         return [F.gen_hold_script(ctx.rng) for _ in range(n)] + [F.gen_tcp_script(ctx.rng, "hold") for _ in range(n // 5)]
